@@ -15,9 +15,10 @@ Line protocol (stdout), same as the C harness:
     DONE
 
 Serializer model: a Serializer only ever appends to a zero-initialised buffer.  Every case is
-    new(exact-fit size) ; prefix of `o` bits (content pp) ; THE OPERATION ; one trailing 1 bit
-and `buffer` must equal   prefix | field | 1 | zero padding to the byte   and current_bit_length the number of bits: the
-earlier bits are untouched, exactly the field's bits are written, the next write lands right behind them.
+    new(exact-fit size) ; prefix of `o` bits (content pp) ; THE OPERATION ; [snapshot 1] ; one 1 bit ; skip 15 bits ; [snapshot 2]
+and `buffer` must equal   prefix | field | zero padding to the byte   at snapshot 1 and   prefix | field | 1 | zeros   at
+snapshot 2, current_bit_length the number of bits: the earlier bits are untouched, exactly the field's bits are written,
+nothing is left behind in the bits that later writes OR into, the next write lands right behind the field.
 Deserializer model: data bytes (pattern, size) ; skip_bits(o) ; THE OPERATION ; one trailing fetch_unaligned_bit.
 Bits past the end read as zero; consumed/remaining_bit_length are checked.
 """
@@ -267,12 +268,9 @@ def run_ser(ns, case: dict):
     a = case
     fam = a["fam"]
     o, pp = a["o"], a["pp"]
-    try:
-        op, field, nbits = ser_op(numpy, a)
-    except OverflowError as e:  # building the argument itself must not need NumPy arithmetic
-        raise
+    op, field, nbits = ser_op(numpy, a)
     pre = prefix_bits(pp, o, a.get("salt", 0))
-    total = o + nbits + 1
+    total = o + nbits + 16
     ser = ns["Serializer"].new((total + 7) // 8)
     nontrivial = (o % 8 != 0) or (nbits % 8 != 0)
     try:
@@ -283,8 +281,10 @@ def run_ser(ns, case: dict):
                 ser.add_unaligned_bit(bool(b))
         op(ser)
         mid_len = ser.current_bit_length
+        mid = bytes(ser.buffer.tobytes())  # snapshot 1: right after the operation
         ser.add_unaligned_bit(True)
-        got = bytes(ser.buffer.tobytes())
+        ser.skip_bits(15)
+        got = bytes(ser.buffer.tobytes())  # snapshot 2: after a 1 bit and 15 skipped bits (shows stray bits further out)
         got_len = ser.current_bit_length
     except Exception as e:  # pylint: disable=broad-except
         if is_numpy2_overflow(e):
@@ -297,10 +297,10 @@ def run_ser(ns, case: dict):
     if mid_len != o + nbits or got_len != total:
         BOOK.fail(case, "bit-length-wrong", f"current_bit_length {mid_len} after the operation / {got_len} at the end, reference {o + nbits} / {total}")
         return
-    gb = bits_of_bytes(got)
-    if len(got) != (total + 7) // 8:
-        BOOK.fail(case, "buffer-size-wrong", f"buffer has {len(got)} bytes for {total} bits")
+    if len(mid) != (o + nbits + 7) // 8 or len(got) != (total + 7) // 8:
+        BOOK.fail(case, "buffer-size-wrong", f"buffer has {len(mid)} / {len(got)} bytes for {o + nbits} / {total} bits")
         return
+    gb = bits_of_bytes(got)
     fb = gb[o : o + nbits]
     if callable(field):
         clause = field(fb)
@@ -308,14 +308,17 @@ def run_ser(ns, case: dict):
     else:
         clause = None if fb == field else "addressed-bit-wrong"
         exp_field = field
-    exp = pre + list(exp_field) + [1]
-    exp += [0] * (len(gb) - len(exp))
+    exp = pre + list(exp_field)
+    exp_mid = exp + [0] * (len(mid) * 8 - len(exp))
+    exp = exp + [1] + [0] * (len(gb) - len(exp) - 1)
     if gb[:o] != exp[:o]:
         clause = "earlier-bit-modified"
-    elif clause is None and gb[o + nbits :] != exp[o + nbits :]:
+    elif clause is None and (gb[o + nbits :] != exp[o + nbits :] or bits_of_bytes(mid) != exp_mid):
         clause = "later-bit-wrong"
     if clause:
-        BOOK.fail(case, clause, f"buffer {got.hex() or '-'}, reference {bytes_of_bits(exp).hex() or '-'} (prefix {o} bits, field {nbits} bits, then a 1 bit)")
+        BOOK.fail(case, clause,
+                  f"buffer after the operation {mid.hex() or '-'} (reference {bytes_of_bits(exp_mid).hex() or '-'}), after a further 1 bit and 15 skipped "
+                  f"bits {got.hex()} (reference {bytes_of_bits(exp).hex()}); prefix {o} bits, field {nbits} bits")
 
 
 def des_op(numpy, a: dict, ref_bits):
